@@ -158,7 +158,7 @@ def run(tier, seed):
                  "result is non-NULL); (R3) owning pointer fields - inferred from the stores that put fresh allocations or "
                  "add_ref'ed headers into them - are all released by the owner's free function; (R4) the conditionally owned "
                  "current entry is released under each owning state before it is overwritten and when the reader is freed; (R5) "
-                 "add_ref is paired with a store into an owning list and, conversely, a borrowed header linked into such a list receives add_ref on every path to a return; (R6) failure statuses are not dropped; an owning header field overwritten without a release is shown NULL at that store by an interprocedural typestate from the constructor (R3b). Quantifies over all "
+                 "add_ref is paired with a store into an owning list and, conversely, a borrowed header linked into such a list receives add_ref on every path to a return; (R6) failure statuses are not dropped; an owning header field overwritten without a release is shown NULL at that store by an interprocedural typestate from the constructor (R3b); (R7) after a release of the value held by an owning field the field is rewritten or its object released on every path; (R8) a realloc result replaces the pointer it was computed from only under result != NULL; a hand-over that depends on the callee's result is not left untested at a return. Quantifies over all "
                  "paths (hence all archives and call histories) rather than over sampled runs. Not decided: the fault-injection "
                  "quantifier as such (R1 shows each failure is noticed and returned, not how every caller up the stack reacts).")
     with Context(tier) as ctx:
